@@ -224,6 +224,7 @@ def add_dup_finder(lab):
     from spil import FindInList
     L = list(lab.list)
     lab.finders["list_dup"] = FindInList(L + L[::3] + L[::7])
+    lab.finders["list_presort"] = FindInList(list(reversed(L)), do_pre_sort=True)
 
 
 def add_const_finders(lab):
@@ -260,7 +261,7 @@ def worker(args):
         lab.trees.reset()
         return rec.result()
     for u in range(args["universes"]):
-        ents = lab.new_universe(names=(rng.sample(["a", "a-b", "ab", "b", "oph", "x_rig", "a.b", "rig"], 3) if rng.random() < 0.5
+        ents = lab.new_universe(names=(rng.sample(["a", "a-b", "ab", "b", "oph", "x_rig", "a.b", "rig", "\U0001F600hero", "cafe\u0301", "B"], 3) if rng.random() < 0.5
                                         else sorted({"rig", "x_rig", rng.choice(["a", "b", "oph"])})))
         add_dup_finder(lab)
         add_const_finders(lab)
